@@ -1,5 +1,6 @@
 import TucanProofs.Lemmas.RejectKind
 import TucanProofs.Lemmas.Sentence
+import TucanProofs.Lemmas.ParserDenotation
 /-!
 # C10 — the parser accepts exactly the grammar; every rejection is the parser's own exception
 
@@ -30,6 +31,21 @@ theorem C10_accepted_is_sentence (s : Str) (g : Graph) (h : graphFromTucan s = .
     cases hp : parseTucan toks with
     | none => simp [hl, hp, bind, Except.bind, pure, Except.pure] at h
     | some ast => exact ⟨toks, ast, rfl, (parseTucan_iff toks ast).mp hp⟩
+
+/-- **The returned graph is the denoted graph.**  For every listener state an accepted string gives rise
+to (`GoodState`: atoms of the formula, bonds between different existing atoms in any order / orientation /
+multiplicity, attribute records on existing atoms), `to_graph` returns the graph with exactly the atoms of
+the formula numbered `0 … n-1` by increasing atomic number (stable sort of the formula's expansion),
+exactly the listed attributes joined onto the indexed atoms, and exactly the listed bonds as a set. -/
+theorem C10_denotation (st : ListenerState) (h : GoodState st) :
+    ∃ g, toGraph st = .ok g ∧ g.labels = List.range st.atoms.length ∧ g.WF ∧ g.Simple ∧
+      (∀ i, i < st.atoms.length → ∃ x, addInvariantCode (atomAt st i) = .ok x ∧ g.attrs? i = some x) ∧
+      (∀ i j : Nat, g.Adj i j ↔ ((i : Int), (j : Int)) ∈ st.bonds ∨ ((j : Int), (i : Int)) ∈ st.bonds) :=
+  toGraph_spec st h
+
+/-- the element table the parser numbers atoms by is the periodic table (regenerated from the working
+tree and compared with an independently written table of the 118 IUPAC symbols) -/
+theorem C10_element_table : Tables.elementTable = periodicTable := elementTable_is_periodicTable
 
 /-- the grammar the reference reader implements is the one the executing parser tables encode: the ATN of
 `tucanParser.py` and the text of `tucan.g4` agree on the two formula rules, every other rule has the
